@@ -262,6 +262,37 @@ def parseMerged (j : Json) : R (Merged String) := do
     | _ => throw "bad merged module"
   return ⟨mods, ← fldStrs j "ambiguous"⟩
 
+/-- a property value read as a module name: the empty string is "not attached" -/
+def nameOf : CVal → Option String
+  | .str s => if s.isEmpty then none else some s
+  | _ => none
+
+def initErrJson : InitErr → Json
+  | .noSuchModule p t => Json.mkObj [("k", "noSuchModule"), ("prop", Json.str p), ("target", Json.str t)]
+  | .doesNotExist p t => Json.mkObj [("k", "doesNotExist"), ("prop", Json.str p), ("target", Json.str t)]
+  | .wrongKind p t => Json.mkObj [("k", "wrongKind"), ("prop", Json.str p), ("target", Json.str t)]
+  | .targetFailed p t => Json.mkObj [("k", "targetFailed"), ("prop", Json.str p), ("target", Json.str t)]
+  | .cyclic p t => Json.mkObj [("k", "cyclic"), ("prop", Json.str p), ("target", Json.str t)]
+  | .fuel => Json.mkObj [("k", "fuel")]
+
+/-- one module of a node: `{name, cls: {…, kinds: [...], attached: [[prop, base], …]}, cfg}`; `spec`: the cfg as the
+specification reads it (a module as written), else as the model of the DSL builds it -/
+def parseModDeclWith (spec : Bool) (m : Json) : R (ModDecl CDT CVal) := do
+  let cj ← fld m "cls"
+  let some cfg ← parseCfgAny spec (← fld m "cfg") | throw "node: a file does not load"
+  let kinds ← match cj.getObjVal? "kinds" with
+    | .ok k => (do (← arr k).mapM (·.getStr?))
+    | .error _ => pure []
+  let att ← match cj.getObjVal? "attached" with
+    | .ok a => (do (← arr a).mapM fun e => do
+        match ← arr e with
+        | [p, b] => return (⟨← p.getStr?, ← b.getStr?⟩ : AttDecl)
+        | _ => throw "bad attached declaration")
+    | .error _ => pure []
+  return ⟨← fldStr m "name", ← parseClass cj, cfg, kinds, att⟩
+
+def parseModDecl (m : Json) : R (ModDecl CDT CVal) := parseModDeclWith false m
+
 def handle (j : Json) : R Json := do
   let k ← fldStr j "k"
   match k with
@@ -294,16 +325,37 @@ def handle (j : Json) : R Json := do
                        ("accepted", Json.bool (acceptedB ops c cfg o)),
                        ("whole", Json.bool (wholeB o))]
   | "node" =>
-    let mods ← (← fldArr j "mods").mapM fun m => do
-      let some cfg ← parseCfgAny false (← fld m "cfg") | throw "node: a file does not load"
-      return ((← fldStr m "name"), (← parseClass (← fld m "cls")), cfg)
-    let n := createNode ops mods
-    return Json.mkObj [("registered", jstrs (n.modules.map (·.1))),
-                       ("errors", jarr (n.errors.map fun e => jarr [Json.str e.1, jarr (e.2.map errJson)])),
-                       ("starts", Json.bool (nodeStarts n))]
+    let mods ← (← fldArr j "mods").mapM parseModDecl
+    let n := startNode ops nameOf mods
+    return Json.mkObj [("registered", jstrs (n.node.modules.map (·.1))),
+                       ("errors", jarr (n.node.errors.map fun e => jarr [Json.str e.1, jarr (e.2.map errJson)])),
+                       ("init", jarr (n.init.errors.map fun e => jarr [Json.str e.1, initErrJson e.2])),
+                       ("recreated", jstrs n.init.recreated),
+                       ("attached", jarr (n.init.attached.map fun e => jarr [Json.str e.1, Json.str e.2.1, Json.str e.2.2])),
+                       ("starts", Json.bool n.starts)]
   | "judge_node" =>
-    let n : ObsNode := ⟨← fldStrs j "configured", ← fldStrs j "registered", ← fldStrs j "reported", ← fldBool j "starts"⟩
-    return Json.mkObj [("ok", Json.bool (nodeB n))]
+    let att ← match j.getObjVal? "attached" with
+      | .ok a => (do (← arr a).mapM fun e => do
+          match ← arr e with
+          | [m, p, t] => return ((← m.getStr?), (← p.getStr?), (← optStr t))
+          | _ => throw "bad attached observation")
+      | .error _ => pure []
+    let initRep ← match j.getObjVal? "initReported" with
+      | .ok a => (do (← arr a).mapM (·.getStr?))
+      | .error _ => pure []
+    let n : ObsNode := ⟨← fldStrs j "configured", ← fldStrs j "registered", ← fldStrs j "reported", ← fldBool j "starts",
+                        initRep, att⟩
+    match j.getObjVal? "mods" with
+    | .ok ms =>
+      -- the node as configured (the modules AS WRITTEN where they come from a file): attachments judged, too
+      let mods ← (← arr ms).mapM (parseModDeclWith true)
+      let hyp := decide ((mods.map (·.name)).Nodup) && mods.all fun m => wellFormedB m.cls
+      return Json.mkObj [("ok", Json.bool (nodeB n && attachedB nameOf mods n && attCleanB nameOf mods n)),
+                         ("node", Json.bool (nodeB n)), ("attached", Json.bool (attachedB nameOf mods n)),
+                         ("clean", Json.bool (attCleanB nameOf mods n)), ("hyp", Json.bool hyp),
+                         ("bad", jstrs ((mods.filter fun m => m.attached.any fun d =>
+                            match attGiven nameOf m d with | some t => !targetOk mods d t | none => false).map (·.name)))]
+    | .error _ => return Json.mkObj [("ok", Json.bool (nodeB n))]
   | "merge" =>
     let files ← (← fldArr j "files").mapM parseFile
     let files := files.map fun f => { f with modules := fileDict f.modules }
